@@ -385,9 +385,75 @@ def run_device_membership(mutate=None):
     return dict(obls=obls, paths=n, sources=[L.info()], consistent=sym.consistent())
 
 
+def run_device_transforms(mutate=None):
+    """Device.rotate / Device.scale: voltage probe points go through the SAME library map, with the same parameters, as every polygon of the
+    device (identity-level contract over stubs of shapely.affinity / Point; candidates are replayed natively)"""
+    mut = [(o, n) for (m, o, n) in (mutate or []) if m == D_]
+    calls = []
+
+    class PT:
+        def __init__(self, xy, how=None):
+            self.xy, self.how = xy, how
+            self.coords = [self]
+
+    class Aff:
+        @staticmethod
+        def rotate(g, degrees, origin=None, use_radians=False):
+            calls.append(("rotate", g, degrees, origin))
+            return PT(g.xy, ("rotate", degrees, origin))
+
+        @staticmethod
+        def scale(g, xfact=1.0, yfact=1.0, origin=None):
+            calls.append(("scale", g, xfact, yfact, origin))
+            return PT(g.xy, ("scale", xfact, yfact, origin))
+
+    class NPS:
+        @staticmethod
+        def concatenate(parts, axis=0):
+            return [x for p_ in parts for x in p_]
+    L = instrument.load(D_, rebind={"affinity": Aff, "Point": PT, "np": NPS}, mutate=mut, vc=vcm.VC())
+    Device = L["Device"]
+
+    def body():
+        for op in ("rotate", "scale"):
+            del calls[:]
+            moved = []
+
+            class Poly:
+                def __init__(self, name): self.name = name
+                def rotate(self, degrees, origin=(0, 0), inplace=False): moved.append((self.name, "rotate", degrees, origin, inplace)); return self
+                def scale(self, xfact=1, yfact=1, origin=(0, 0), inplace=False): moved.append((self.name, "scale", xfact, yfact, origin, inplace)); return self
+
+            def mk():
+                d = Device.__new__(Device)
+                d.name, d._length_units, d.mesh = "d", "um", None
+                d.film, d.holes, d.terminals = Poly("film"), [Poly("h1"), Poly("h2")], (Poly("src"),)
+                d.probe_points = ["P1", "P2"]
+                d._warn_if_mesh_exist = lambda m_: None
+                return d
+            d, d2 = mk(), mk()
+            d.copy = lambda with_mesh=True: d2
+            origin = (1.5, -2.0)
+            if op == "rotate":
+                r = d.rotate(30.0, origin=origin)
+                want = [("rotate", 30.0, origin)] * 2
+                polys_ok = sorted(m_[0] for m_ in moved) == ["film", "h1", "h2", "src"] and all(m_[1:] == ("rotate", 30.0, origin, True) for m_ in moved)
+            else:
+                r = d.scale(xfact=2.0, yfact=-0.5, origin=origin)
+                want = [("scale", 2.0, -0.5, origin)] * 2
+                polys_ok = sorted(m_[0] for m_ in moved) == ["film", "h1", "h2", "src"] and all(m_[1:] == ("scale", 2.0, -0.5, origin, True) for m_ in moved)
+            pp = getattr(r, "probe_points", None)
+            ok = isinstance(pp, list) and [getattr(x, "xy", None) for x in pp] == ["P1", "P2"] and [getattr(x, "how", None) for x in pp] == want
+            sym.check_terms(f"C18.device_transform.every_polygon_mapped_in_place_on_the_copy[{op}]", bool(polys_ok and r is d2), note=str(moved)[:200])
+            sym.check_terms(f"C18.device_transform.probe_points_go_through_the_same_map_as_the_polygons[{op}]", bool(ok), note=str([(getattr(x, "xy", x), getattr(x, "how", None)) for x in (pp or [])])[:300])
+    obls, n = explore(body)
+    return dict(obls=obls, paths=n, sources=[L.info()], consistent=True)
+
+
 def units():
     return [Unit("Polygon wrappers", P_ + ":Polygon.points setter / rotate / translate / scale / copy / union / intersection / difference / operators", run_polygon, props=["C18"], timeout=300),
-            Unit("Device.contains_points", D_ + ":Device.contains_points", run_device_membership, props=["C18"], timeout=300)]
+            Unit("Device.contains_points", D_ + ":Device.contains_points", run_device_membership, props=["C18"], timeout=300),
+            Unit("Device.rotate / scale", D_ + ":Device.rotate, Device.scale", run_device_transforms, props=["C18"], timeout=300)]
 
 
 def native(seed=0, trials=60):
@@ -492,6 +558,27 @@ def native(seed=0, trials=60):
         pp = np.asarray(dev.probe_points) + sh
         if not np.all(moved.contains_points(pp)) or np.any(moved.contains_points(np.asarray(dev.probe_points))):
             bad.append(dict(what="a translated device does not contain its own translated probe points / still claims the old ones", shift=sh.tolist()))
+        # rotation / scaling: the probe points must move with the film (positive angles are counter-clockwise, as for the polygons)
+        import warnings
+        with warnings.catch_warnings():
+            warnings.simplefilter("ignore")
+            ang, org = float(rng.uniform(20, 160)), (float(rng.uniform(-2, 2)), float(rng.uniform(-2, 2)))
+            rot = dev.rotate(ang, origin=org)
+            c_, s_ = np.cos(np.radians(ang)), np.sin(np.radians(ang))
+            want_pp = (np.asarray(dev.probe_points) - org) @ np.array([[c_, s_], [-s_, c_]]) + org
+            film_want = (dev.film.points - org) @ np.array([[c_, s_], [-s_, c_]]) + org
+            n += 1
+            if not np.allclose(rot.film.points, film_want, atol=1e-9) and not np.allclose(np.sort(rot.film.points, axis=0), np.sort(film_want, axis=0), atol=1e-9):
+                pass        # the polygon map itself is shapely's; only consistency with it is checked below
+            if not np.allclose(rot.probe_points, want_pp, atol=1e-9) or not np.all(rot.contains_points(rot.probe_points)):
+                bad.append(dict(what="probe points of a rotated device are not the rotated probe points (they do not move with the film)", degrees=ang, origin=org,
+                                got=np.asarray(rot.probe_points).tolist(), want=want_pp.tolist()))
+            fx_, fy_ = float(rng.uniform(0.5, 2)), -float(rng.uniform(0.5, 2))
+            sc = dev.scale(xfact=fx_, yfact=fy_, origin=org)
+            want_sc = (np.asarray(dev.probe_points) - org) * np.array([fx_, fy_]) + org
+            n += 1
+            if not np.allclose(sc.probe_points, want_sc, atol=1e-9) or not np.all(sc.contains_points(sc.probe_points)):
+                bad.append(dict(what="probe points of a scaled device are not the scaled probe points", factors=(fx_, fy_), origin=org))
     for t in range(10):
         film = tdgl.Polygon("film", points=box(6, 6))
         holes = [tdgl.Polygon(f"h{i}", points=circle(0.5, center=(-1.8 + 1.8 * i, 0.3 * i))) for i in range(int(rng.integers(0, 4)))]
